@@ -57,18 +57,40 @@ func ruleReplayErrorUnwrapped(c *Ctx) {
 		c.Undecided(rule, cl.Name, "replay-error-bound", "error of Replay not bound in CleanupOldWALFiles")
 		return
 	}
+	// the error may be handed on to an extracted helper: its parameter carries the same value
+	carriers := map[types.Object]bool{errObj: true}
+	for round := 0; round < 3; round++ {
+		cl.walk(func(m ast.Node) bool {
+			cx, ok := m.(*ast.CallExpr)
+			if !ok {
+				return true
+			}
+			h := c.P.Funcs[CalleeName(cl.Info, cx)]
+			if h == nil || h.Pkg != cl.Pkg {
+				return true
+			}
+			for i, a := range cx.Args {
+				if o := identObj(cl.Info, a); o != nil && carriers[o] {
+					if po := paramObj(h, i); po != nil {
+						carriers[po] = true
+					}
+				}
+			}
+			return true
+		})
+	}
 	asCalls, asserts := 0, 0
 	var pos ast.Node = cl.Body
 	cl.walk(func(m ast.Node) bool {
 		switch x := m.(type) {
 		case *ast.CallExpr:
-			if nm := CalleeName(cl.Info, x); (nm == "errors.As" || nm == "errors.Is") && len(x.Args) == 2 && identObj(cl.Info, x.Args[0]) == errObj {
+			if nm := CalleeName(cl.Info, x); (nm == "errors.As" || nm == "errors.Is") && len(x.Args) == 2 && carriers[identObj(cl.Info, x.Args[0])] {
 				if strings.Contains(typeShort(cl.Info.TypeOf(x.Args[1])), "executor/wal.ReplayError") {
 					asCalls++
 				}
 			}
 		case *ast.TypeAssertExpr:
-			if identObj(cl.Info, x.X) == errObj {
+			if carriers[identObj(cl.Info, x.X)] {
 				asserts++
 				pos = x
 			}
